@@ -137,3 +137,123 @@ Print Assumptions C13_zf_optimal_anyG.
 Print Assumptions C13_zf_structure.
 Print Assumptions C13_zf_structure_anyG.
 Print Assumptions C13_Gdisc_unimodal.
+
+(* ======================================================================================================================= *)
+(* C13 additions — the ergodic step: the cost reported for (s,S) IS the long-run average expected cost per period of the
+   inventory-position chain operated under the (s,S) policy, from EVERY initial distribution (Cesaro averages; the chain may
+   be periodic), for every n = S - s >= 1 (no relation to the demand support D required), every pmf with p_l >= 0, sum 1,
+   p_0 < 1, every one-period cost G and fixed cost K.  Statements only; proofs in Alg/SSErgo_proofs.v; model Alg/SSErgo.v:
+     dist pmf n mu t          = mu * P^t   (P = the model's trans pmf n, states = offsets i = S - y, lists of n rationals)
+     cstate pmf G K n S i     = G(S-i) + K * P(D >= n-i)   -- the per-state cost of C13_cost_is_stationary_cost
+     ecost ... mu t           = (mu P^t) . cstate = E_mu[cost of period t];   totcost = sum_{t<T};  avgcost = totcost / T
+     ecost_ord/avgcost_ord    = the same with K charged in the period in which the order is placed (o0 = P(order at time 0))
+     bias pmf G K s S i       = K + sum_{d<y-s} m(d) G(y-d) - g M(y-s), y = S-i    (solves the Poisson equation)
+     ergB pmf G K s S         = 2 max_i |bias i|             (does not depend on T nor on the initial distribution)
+     is_dist n mu             = length n, entries >= 0, sum 1. *)
+From SV Require Import Base.Qx Alg.SS Alg.SS_proofs.
+From SV Require Import Alg.SSErgo Alg.SSErgo_proofs.
+
+(* generic: for a finite stochastic matrix P over Q, a solution h of the Poisson equation c - g = h - P h bounds the
+   distance of every Cesaro average of expected costs from g by 2 max|h| / T *)
+Theorem C13_poisson_cesaro_generic : forall (n : nat) (P : nat -> nat -> Q),
+  (forall i j, (i < n)%nat -> (j < n)%nat -> 0 <= P i j) -> (forall i, (i < n)%nat -> qsum_range (P i) 0 n == 1) ->
+  forall (c h : nat -> Q) (g : Q), (forall i, (i < n)%nat -> c i - g == h i - Pf n P h i) ->
+  forall (mu : nat -> Q) (H : Q), probf n mu -> (forall i, (i < n)%nat -> - H <= h i /\ h i <= H) ->
+  forall T, (1 <= T)%nat ->
+  Qabs (qsum_range (fun t => dotn n (distf n P mu t) c) 0 T / qnat T - g) <= 2 * H / qnat T.
+Proof. exact poisson_cesaro. Qed.
+
+(* mu P^t stays a probability vector *)
+Theorem C13_dist_is_distribution : forall pmf, (forall l, 0 <= pf pmf l) -> qsum pmf == 1 ->
+  forall n mu t, is_dist n mu -> is_dist n (dist pmf n mu t).
+Proof. exact dist_is_dist. Qed.
+
+(* the bias vector solves the Poisson equation of the (s,S) chain *)
+Theorem C13_poisson_equation : forall pmf G K, (forall l, 0 <= pf pmf l) -> qsum pmf == 1 -> pf pmf 0 < 1 ->
+  forall s S, (s < S)%Z -> let n := Z.to_nat (S - s) in forall i, (i < n)%nat ->
+  cstate pmf G K n S i - gcost pmf G K s S == bias pmf G K s S i - Pf n (trans pmf n) (bias pmf G K s S) i.
+Proof. exact ss_poisson. Qed.
+
+(* exact identity: expected total cost of T periods = T * (reported cost) + mu.h - (mu P^T).h *)
+Theorem C13_total_cost_identity : forall pmf G K, (forall l, 0 <= pf pmf l) -> qsum pmf == 1 -> pf pmf 0 < 1 ->
+  forall s S mu T, (s < S)%Z -> let n := Z.to_nat (S - s) in is_dist n mu ->
+  totcost pmf G K n S mu T == qnat T * gcost pmf G K s S + doth pmf G K s S mu - doth pmf G K s S (dist pmf n mu T).
+Proof. exact ss_total_cost_identity. Qed.
+
+(* THE ERGODIC THEOREM (expected values): | (1/T) sum_{t<T} E_mu[cost of period t] - gcost s S | <= ergB / T *)
+Theorem C13_long_run_average : forall pmf G K, (forall l, 0 <= pf pmf l) -> qsum pmf == 1 -> pf pmf 0 < 1 ->
+  forall s S mu T, (s < S)%Z -> let n := Z.to_nat (S - s) in is_dist n mu -> (1 <= T)%nat ->
+  Qabs (avgcost pmf G K n S mu T - gcost pmf G K s S) <= ergB pmf G K s S / qnat T.
+Proof. exact ss_ergodic. Qed.
+(* from every initial state *)
+Theorem C13_long_run_average_from_state : forall pmf G K, (forall l, 0 <= pf pmf l) -> qsum pmf == 1 -> pf pmf 0 < 1 ->
+  forall s S i T, (s < S)%Z -> let n := Z.to_nat (S - s) in (i < n)%nat -> (1 <= T)%nat ->
+  Qabs (avgcost pmf G K n S (unitv n i) T - gcost pmf G K s S) <= ergB pmf G K s S / qnat T.
+Proof. exact ss_ergodic_from_state. Qed.
+(* stationary start: every single period costs exactly the reported cost *)
+Theorem C13_stationary_start : forall pmf G K, (forall l, 0 <= pf pmf l) -> qsum pmf == 1 -> pf pmf 0 < 1 ->
+  forall s S, (s < S)%Z -> let n := Z.to_nat (S - s) in
+  (forall t, ecost pmf G K n S (pilist pmf n) t == gcost pmf G K s S) /\
+  (forall T, (1 <= T)%nat -> avgcost pmf G K n S (pilist pmf n) T == gcost pmf G K s S).
+Proof. exact ss_stationary_start. Qed.
+(* K charged in the period in which the order is placed; o0 = probability of an order at time 0, mu = distribution after it *)
+Theorem C13_long_run_average_order_convention : forall pmf G K, (forall l, 0 <= pf pmf l) -> qsum pmf == 1 -> pf pmf 0 < 1 ->
+  forall s S o0 mu T, (s < S)%Z -> let n := Z.to_nat (S - s) in is_dist n mu -> 0 <= o0 <= 1 -> (1 <= T)%nat ->
+  Qabs (avgcost_ord pmf G K n S o0 mu T - gcost pmf G K s S) <= (ergB pmf G K s S + Qabs K) / qnat T.
+Proof. exact ss_ergodic_ord. Qed.
+(* the system started at an arbitrary inventory position x0 <= S, operated under the (s,S) rule *)
+Theorem C13_long_run_average_from_position : forall pmf G K, (forall l, 0 <= pf pmf l) -> qsum pmf == 1 -> pf pmf 0 < 1 ->
+  forall s S x0 T, (s < S)%Z -> (x0 <= S)%Z -> (1 <= T)%nat -> let n := Z.to_nat (S - s) in
+  Qabs (avgcost_ord pmf G K n S (start_o0 s x0) (start_mu s S x0) T - gcost pmf G K s S) <= (ergB pmf G K s S + Qabs K) / qnat T.
+Proof. exact ss_ergodic_from_position. Qed.
+(* at the custom-pmf entry point: whatever s_s_cost_discrete returns is the long-run average *)
+Theorem C13_entry_long_run_average : forall h p K pmf s S q mu T,
+  (forall l, 0 <= pf pmf l) -> qsum pmf == 1 -> pf pmf 0 < 1 ->
+  s_s_cost_discrete h p K pmf s S = Ok q -> let n := Z.to_nat (S - s) in is_dist n mu -> (1 <= T)%nat ->
+  Qabs (avgcost pmf (Gdisc h p pmf) K n S mu T - q) <= ergB pmf (Gdisc h p pmf) K s S / qnat T.
+Proof. exact ss_entry_ergodic. Qed.
+(* periodic chain (demand identically 1, n = 3): the distribution itself never converges *)
+Theorem C13_periodic_no_convergence : forall t0, exists t t', (t0 <= t)%nat /\ (t0 <= t')%nat /\
+  nth 0 (dist [0; 1] 3 [1; 0; 0] t) 0 == 1 /\ nth 0 (dist [0; 1] 3 [1; 0; 0] t') 0 == 0.
+Proof. exact periodic_no_convergence. Qed.
+
+(* non-vacuity 1 — periodic instance: demand identically 1, (s,S) = (0,3), G(y) = y^2, K = 5: g = 19/3, pi uniform; started at
+   offset 0 the distribution is [1,0,0] at t = 30, [0,1,0] at t = 31, [0,0,1] at t = 32 (no convergence), bias = (0,-8/3,-1/3),
+   ergB = 16/3; the average over T = 31 periods is 199/31 <> g, and |199/31 - 19/3| = 8/93 <= (16/3)/31. *)
+Example C13_ergodic_periodic :
+  let pmf := [0; 1] in let G := fun y : Z => inject_Z (y * y) in let mu := [1; 0; 0] in
+  forallb (qleb 0) pmf = true /\ qsum pmf == 1 /\ pf pmf 0 < 1 /\
+  (length mu = 3%nat /\ forallb (qleb 0) mu = true /\ qsum mu == 1) /\
+  gcost pmf G 5 0 3 == 19 # 3 /\ pilist pmf 3 = [1 # 3; 1 # 3; 1 # 3] /\
+  dist pmf 3 mu 30 = [1; 0; 0] /\ dist pmf 3 mu 31 = [0; 1; 0] /\ dist pmf 3 mu 32 = [0; 0; 1] /\
+  map (fun i => Qred (bias pmf G 5 0 3 i)) [0; 1; 2]%nat = [0; -8 # 3; -1 # 3] /\ ergB pmf G 5 0 3 == 16 # 3 /\
+  avgcost pmf G 5 3 3 mu 31 == 199 # 31 /\
+  Qle_bool (Qabs (avgcost pmf G 5 3 3 mu 31 - gcost pmf G 5 0 3)) (ergB pmf G 5 0 3 / qnat 31) = true /\
+  avgcost pmf G 5 3 3 mu 30 == 19 # 3.
+Proof. vm_compute. repeat split; reflexivity. Qed.
+
+(* non-vacuity 2 — S - s larger than the demand support: uniform demand on 0..3 (D = 3), h = 1, p = 4, K = 5, (s,S) = (2,8), n = 6 > D,
+   started in the state farthest from S (offset 5, position 3) and at position x0 = -7 (order at time 0):
+   the entry point returns 17541/3232, ergB = 390/101, the bounds hold at T = 1, 7, 20 and are not attained with equality. *)
+Example C13_ergodic_beyond_support :
+  let pmf := [1 # 4; 1 # 4; 1 # 4; 1 # 4] in let G := Gdisc 1 4 pmf in
+  s_s_cost_discrete 1 4 5 pmf 2 8 = Ok (17541 # 3232) /\ ergB pmf G 5 2 8 == 390 # 101 /\
+  trans pmf 6 0 5 == 0 /\
+  avgcost pmf G 5 6 8 (unitv 6 5) 7 == 39405 # 7168 /\
+  forallb (fun T => Qle_bool (Qabs (avgcost pmf G 5 6 8 (unitv 6 5) T - (17541 # 3232))) (ergB pmf G 5 2 8 / qnat T)) [1; 7; 20]%nat = true /\
+  forallb (fun T => Qle_bool (Qabs (avgcost_ord pmf G 5 6 8 (start_o0 2 (-7)) (start_mu 2 8 (-7)) T - (17541 # 3232)))
+                             ((ergB pmf G 5 2 8 + Qabs 5) / qnat T)) [1; 7; 20]%nat = true /\
+  start_o0 2 (-7) == 1 /\ start_mu 2 8 (-7) = unitv 6 0 /\ start_mu 2 8 3 = unitv 6 5.
+Proof. vm_compute. repeat split; reflexivity. Qed.
+
+Print Assumptions C13_poisson_cesaro_generic.
+Print Assumptions C13_dist_is_distribution.
+Print Assumptions C13_poisson_equation.
+Print Assumptions C13_total_cost_identity.
+Print Assumptions C13_long_run_average.
+Print Assumptions C13_long_run_average_from_state.
+Print Assumptions C13_stationary_start.
+Print Assumptions C13_long_run_average_order_convention.
+Print Assumptions C13_long_run_average_from_position.
+Print Assumptions C13_entry_long_run_average.
+Print Assumptions C13_periodic_no_convergence.
